@@ -523,93 +523,26 @@ def replay_rule_mutations(fl, FA, vals=None, seed=0, budget=200, double=False, s
 
 
 # ------------------------------------------------------------------------------------------------------------------ 3. FLL documents
-HAND_WRITTEN = ["""# hand-written: every key of every section
-Engine: hw_one
-  description: a small engine
-InputVariable: light
-  description: ambient light
-  enabled: true
-  range: 0.000 1.000
-  lock-range: false
-  term: dark Triangle 0.000 0.250 0.500
-  term: mid Trapezoid 0.200 0.400 0.600 0.800
-  term: bright Ramp 0.500 1.000
-InputVariable: hour
-  enabled: true
-  range: 0.000 24.000
-  lock-range: true
-  term: day Rectangle 6.000 18.000
-  term: night Discrete 0.000 1.000 6.000 0.000 18.000 0.000 24.000 1.000
-OutputVariable: power
-  description: lamp power
-  enabled: true
-  range: 0.000 1.000
-  lock-range: false
-  aggregation: Maximum
-  defuzzifier: Centroid 100
-  default: nan
-  lock-previous: false
-  term: low Triangle 0.000 0.250 0.500
-  term: high Gaussian 0.750 0.100
-RuleBlock: main
-  description: the rules
-  enabled: true
-  conjunction: Minimum
-  disjunction: Maximum
-  implication: AlgebraicProduct
-  activation: General
-  rule: if light is dark and hour is night then power is high
-  rule: if light is very bright or hour is day then power is low with 0.500
-  rule: if light is not mid and (hour is any or light is somewhat dark) then power is extremely high and power is seldom low
-""", """Engine: hw_two
-InputVariable: x
-  enabled: true
-  range: -1.000 1.000
-  lock-range: false
-  term: neg ZShape -1.000 0.000
-  term: pos SShape 0.000 1.000
-OutputVariable: y
-  enabled: true
-  range: -2.000 2.000
-  lock-range: false
-  aggregation: none
-  defuzzifier: WeightedAverage TakagiSugeno
-  default: 0.000
-  lock-previous: true
-  term: c Constant 0.500
-  term: l Linear 1.000 0.000
-  term: f Function x * 2.0 + sin(x)
-OutputVariable: z
-  enabled: false
-  range: 0.000 1.000
-  lock-range: true
-  aggregation: AlgebraicSum
-  defuzzifier: MeanOfMaximum 50
-  default: 0.500
-  lock-previous: false
-  term: s Sigmoid 0.500 10.000
-  term: b Bell 0.500 0.250 3.000
-RuleBlock: first
-  enabled: true
-  conjunction: AlgebraicProduct
-  disjunction: none
-  implication: none
-  activation: Highest 1
-  rule: if x is neg then y is c and z is s
-  rule: if x is pos then y is l
-RuleBlock: second
-  enabled: false
-  conjunction: none
-  disjunction: AlgebraicSum
-  implication: Minimum
-  activation: Threshold >= 0.250
-  rule: if x is neg or x is pos then y is f with 0.750
-  rule: if y is c then z is b
-""", """Engine: hw_three
-InputVariable: i
-OutputVariable: o
-RuleBlock:
-"""]
+# hand-written documents using every key of every section kind; " | " stands for a line break followed by the two-space indentation
+_HW = [
+    ['# hand-written: every key of every section',
+     'Engine: hw_one | description: a small engine',
+     'InputVariable: light | description: ambient light | enabled: true | range: 0.000 1.000 | lock-range: false | term: dark Triangle 0.000 0.250 0.500 | term: mid Trapezoid 0.200 0.400 0.600 0.800 | term: bright Ramp 0.500 1.000',
+     'InputVariable: hour | enabled: true | range: 0.000 24.000 | lock-range: true | term: day Rectangle 6.000 18.000 | term: night Discrete 0.000 1.000 6.000 0.000 18.000 0.000 24.000 1.000',
+     'OutputVariable: power | description: lamp power | enabled: true | range: 0.000 1.000 | lock-range: false | aggregation: Maximum | defuzzifier: Centroid 100 | default: nan | lock-previous: false | term: low Triangle 0.000 0.250 0.500 | term: high Gaussian 0.750 0.100',
+     'RuleBlock: main | description: the rules | enabled: true | conjunction: Minimum | disjunction: Maximum | implication: AlgebraicProduct | activation: General | rule: if light is dark and hour is night then power is high | rule: if light is very bright or hour is day then power is low with 0.500 | rule: if light is not mid and (hour is any or light is somewhat dark) then power is extremely high and power is seldom low'],
+    ['Engine: hw_two',
+     'InputVariable: x | enabled: true | range: -1.000 1.000 | lock-range: false | term: neg ZShape -1.000 0.000 | term: pos SShape 0.000 1.000',
+     'OutputVariable: y | enabled: true | range: -2.000 2.000 | lock-range: false | aggregation: none | defuzzifier: WeightedAverage TakagiSugeno | default: 0.000 | lock-previous: true | term: c Constant 0.500 | term: l Linear 1.000 0.000 | term: f Function x * 2.0 + sin(x)',
+     'OutputVariable: z | enabled: false | range: 0.000 1.000 | lock-range: true | aggregation: AlgebraicSum | defuzzifier: MeanOfMaximum 50 | default: 0.500 | lock-previous: false | term: s Sigmoid 0.500 10.000 | term: b Bell 0.500 0.250 3.000',
+     'RuleBlock: first | enabled: true | conjunction: AlgebraicProduct | disjunction: none | implication: Minimum | activation: Highest 1 | rule: if x is neg then y is c and z is s | rule: if x is pos then y is l',
+     'RuleBlock: second | enabled: false | conjunction: none | disjunction: AlgebraicSum | implication: Minimum | activation: Threshold >= 0.250 | rule: if x is neg or x is pos then y is f with 0.750 | rule: if y is c then z is b'],
+    ['Engine: hw_three',
+     'InputVariable: i',
+     'OutputVariable: o',
+     'RuleBlock:'],
+]
+HAND_WRITTEN = ["\n".join(sec.replace(" | ", "\n  ") for sec in d) + "\n" for d in _HW]
 SUBST = [":", "true", "false", "none", "nan", "0.5", "-1", "Triangle", "Discrete", "Function", "Minimum", "Maximum", "Centroid", "General", "zzz", "(", ")", "if", "then",
          "is", "and", "with", "term:", "rule:", "Engine:", "RuleBlock:", "#", ","]
 BAD_NUM = ["abc", "1e", "--1", "0.2.5", "nan", "inf", "-inf", "1e999", "", "1,5", "0x1F"]
